@@ -1,5 +1,6 @@
 //! Lab-S: the loopback-socket lab. Everything stays on 127.0.0.0/8 and ::1.
 
+pub mod dns;
 pub mod refpeer;
 pub mod world;
 
